@@ -16,7 +16,10 @@
 (*                             input order, one entry per input occurrence *)
 (*                             (None inputs and inputs without a producer  *)
 (*                             in the forest are concretisation detail:    *)
-(*                             the algorithm skips them)                   *)
+(*                             the algorithm skips them; so are CONSUMERS  *)
+(*                             outside the forest - a node in no graph of  *)
+(*                             the forest that still uses an output of a   *)
+(*                             node of the forest constrains nothing)      *)
 (* A node may use values produced in its own graph or in any enclosing     *)
 (* graph (ONNX scoping); sorting may start at any graph r of the forest    *)
 (* (then the producers outside r's subtree are "outside the sorted set").  *)
